@@ -2,6 +2,10 @@ mod cmd_backend;
 mod cmd_stages;
 mod consts;
 mod pipe;
+mod cmd_genfun;
+mod consts;
+mod gen_fun;
+mod gen_fun_ast;
 mod rec;
 mod rng;
 mod sexp;
@@ -61,6 +65,12 @@ fn main() {
     if args.len() < 2 { eprintln!("usage: harness <cmd> ..."); std::process::exit(2); }
     let arg = |i: usize| -> &str { args.get(i).map(|s| s.as_str()).unwrap_or("") };
     let num = |i: usize, d: u64| -> u64 { args.get(i).and_then(|s| s.parse().ok()).unwrap_or(d) };
+    // commands whose 4th argument is not an output file
+    match arg(1) {
+        "genfun" => { cmd_genfun::cmd_genfun(num(2, 1), num(3, 10) as usize, if arg(4).is_empty() { "genfun-out" } else { arg(4) }, args.get(5..).unwrap_or(&[])); return; }
+        "genfun-stats" => { cmd_genfun::cmd_stats(num(2, 1), num(3, 100) as usize, args.get(4..).unwrap_or(&[])); return; }
+        _ => {}
+    }
     let mut out: Box<dyn std::io::Write> = match args.get(4) {
         Some(p) if p != "-" => Box::new(std::io::BufWriter::new(std::fs::File::create(p).expect("create out"))),
         _ => Box::new(std::io::BufWriter::new(std::io::stdout())),
